@@ -322,17 +322,21 @@ func priorKeys() [][]byte { return priorSpecFor("i32").Keys }
 var priorStreams = map[string][]byte{}
 
 func priorStreamFor(enc string) []byte {
+	ambSettle()
 	if b, ok := priorStreams[enc]; ok {
 		return b
 	}
-	st, err := priorSpecFor(enc).build()
-	if err != nil {
-		panic(err)
-	}
-	b, err := st.Marshal()
-	if err != nil {
-		panic(err)
-	}
+	var b []byte
+	ambIsolated(func() {
+		st, err := priorSpecFor(enc).build()
+		if err != nil {
+			panic(err)
+		}
+		b, err = st.Marshal()
+		if err != nil {
+			panic(err)
+		}
+	})
 	priorStreams[enc] = b
 	return b
 }
